@@ -23,10 +23,14 @@ package db19
 // fkSrcExists(table, iindex) abstracts "the foreign key index iindex of source table `table`
 // contains rows that reference the target key being deleted" (what fkeyDeleteExists finds).
 //@ spec fkSrcExists(table string, iindex int) bool
+// fkLooked(table, iindex, key): the same, and it names the key that was looked up (the target key itself, or its
+// encoded form when the target index is not encoded and the source index is)
+//@ spec fkLooked(table string, iindex int, key string) bool
 //@ func (t *UpdateTran) fkeyDeleteExists(fkth, key, kn) (r)
 //@   assumed
 //@   pure
 //@   ensures r == fkSrcExists(fkth.Table, fkth.IIndex)
+//@   ensures r == fkLooked(fkth.Table, fkth.IIndex, key)
 
 // Removing a referenced target key - by deleting the row (cascades == CascadeDeletes) or by an
 // update that changes the key (cascades == CascadeUpdates) - is refused unless the foreign key
@@ -48,6 +52,8 @@ package db19
 //@   defines gDelBlk[i] == delBlkArgs(ts, key, cascades) && forall j :: j != i ==> gDelBlk[j] == old(gDelBlk[j])
 //@   ensures! refused_unless_cascaded: len(key) > 0 ==> forall k :: 0 <= k && k < len(ts.Schema.Indexes[i].FkToHere) ==> ((ts.Schema.Indexes[i].FkToHere[k].Mode & cascades) != 0 || !fkSrcExists(ts.Schema.Indexes[i].FkToHere[k].Table, ts.Schema.Indexes[i].FkToHere[k].IIndex))
 //@   loop 0 invariant 0 <= j && j <= len(fkToHere) && forall k :: 0 <= k && k < j ==> ((fkToHere[k].Mode & cascades) != 0 || !fkSrcExists(fkToHere[k].Table, fkToHere[k].IIndex))
+//@   ensures! looked_up_this_key: len(key) > 0 ==> forall k :: 0 <= k && k < len(ts.Schema.Indexes[i].FkToHere) ==> ((ts.Schema.Indexes[i].FkToHere[k].Mode & cascades) != 0 || !fkLooked(ts.Schema.Indexes[i].FkToHere[k].Table, ts.Schema.Indexes[i].FkToHere[k].IIndex, key) || !fkLooked(ts.Schema.Indexes[i].FkToHere[k].Table, ts.Schema.Indexes[i].FkToHere[k].IIndex, encOf(key)))
+//@   loop 0 invariant (len(encKey) == 0 || (sarr(encKey) == sarr(encOf(key)) && off(encKey) == off(encOf(key)) && len(encKey) == len(encOf(key)))) && forall k :: 0 <= k && k < j ==> ((fkToHere[k].Mode & cascades) != 0 || !fkLooked(fkToHere[k].Table, fkToHere[k].IIndex, key) || !fkLooked(fkToHere[k].Table, fkToHere[k].IIndex, encOf(key)))
 
 // Adding or changing a source row is refused unless the (non-empty) foreign key value has a
 // matching target row: fkTgtExists(table, iindex) abstracts "the target index contains the key"
